@@ -568,4 +568,36 @@ end Inv
 
 end Gnat
 
+/-! ## which structure a planner gets: `tools::SelfConfig::getDefaultNearestNeighbors` -/
+
+section Default
+
+/-- the four shipped `NearestNeighbors` implementations (FLANN wrappers are not built). -/
+inductive NNKind where
+  | gnat                  -- `NearestNeighborsGNAT` (thread safe)
+  | gnatNoThreadSafety    -- `NearestNeighborsGNATNoThreadSafety`
+  | sqrtApprox            -- `NearestNeighborsSqrtApprox`
+  | linear                -- `NearestNeighborsLinear`
+deriving DecidableEq, Repr
+
+/-- `getDefaultNearestNeighbors<_T>(planner)` as coded (SelfConfig.h; no build flag is consulted):
+`if (space->isMetricSpace()) { if (specs.multithreaded) GNAT else GNATNoThreadSafety } else SqrtApprox`. -/
+def defaultNN (isMetricSpace multithreaded : Bool) : NNKind :=
+  if isMetricSpace then
+    if multithreaded then .gnat else .gnatNoThreadSafety
+  else .sqrtApprox
+
+/-- does exactness of the structure's answers rest on the metric laws? (GNAT prunes by the triangle
+inequality; Linear / SqrtApprox only evaluate the distance function.) -/
+def NNKind.needsMetric : NNKind → Bool
+  | .gnat => true
+  | .gnatNoThreadSafety => true
+  | .sqrtApprox => false
+  | .linear => false
+
+/-- `CompoundStateSpace::isMetricSpace`: `std::all_of` over the components. -/
+def compoundIsMetric (components : List Bool) : Bool := components.all id
+
+end Default
+
 end OmplModel.NN
